@@ -32,40 +32,15 @@ import mcnpref
 import t4eval
 from common import clist, cfloat, copt, cpair, cz, cn, cbool
 
+# the audited bundles of coq/Properties/C02.v (each a conjunction of the
+# individually stated theorems; see notes/C02.md for the members)
 THEOREMS = [
-    'C02_locus_sense_meaning',
-    'C02_every_card_locus_sense',
-    'C02_SO_S_SX_SY_SZ_locus_sense',
-    'C02_PX_PY_PZ_P_locus_sense',
-    'C02_CX_CY_CZ_C_X_C_Y_C_Z_locus_sense',
-    'C02_KX_KY_KZ_K_X_K_Y_K_Z_locus_sense',
-    'C02_K_sheet_locus_sense',
-    'C02_GQ_SQ_locus_sense',
-    'C02_TX_TY_TZ_locus_sense',
-    'C02_X_Y_Z_plane_cylinder_locus_sense',
-    'C02_X_Y_Z_cone_locus_sense',
-    'C02_P_three_points_locus_sense',
-    'C02_P_three_points_locus_partial',
-    'C02_orient_plane_ok',
-    'C02_sq_gq_consistent',
-    'C02_convert_any_axis',
-    'C02_C_K_any_axis_locus_sense',
-    'C02_inadmissible_cards_raise',
-    'C02_P_three_points_thresholded',
-    'C02_P_three_points_band_deviation',
-    'C02_parameter_count_behaviour',
-    'C02_large_selector',
-    'C02_number_items_spec',
-    'C02_numbered_ids_select_regions',
-    'C02_text_every_card_locus_sense',
-    'C02_split_surface_render',
-    'C02_to_float_denotes',
-    'C02_text_every_card_locus_sense_linked',
-    'C02_text_every_card_all_mnemonics_linked',
-    'C02_torus_tr_linked',
-    'C02_frame_form_sense_linked',
-    'C02_spec_sanity',
-    'C02_sense_value_sign',
+    'C02_family_cards',
+    'C02_family_three_point_planes',
+    'C02_family_counts_numbering',
+    'C02_family_text',
+    'C02_family_spec',
+    'C02_family_linked',
 ]
 
 TRUSTED = [
